@@ -132,6 +132,10 @@ func coqCase(h *Hist, o *observed) string {
 
 func runHist(c *hx.Ctx, w *world, h *Hist, emit bool) {
 	r, err := newRun(w, h)
+	if ip, isPanic := err.(*implPanic); isPanic {
+		c.Fail(ip.class(), "a panic escaped from the implementation", h, ip, nil)
+		return
+	}
 	if err != nil {
 		c.Fail("harness:setup", "environment construction", h, err.Error(), nil)
 		return
@@ -141,11 +145,24 @@ func runHist(c *hx.Ctx, w *world, h *Hist, emit bool) {
 		c.Fail("panic:pool", "the receive path or the pool panicked", h, msg, nil)
 		return
 	}
+	if ip, isPanic := err.(*implPanic); isPanic {
+		// ORACLE: no message, however malformed, may crash the node.
+		c.Count(ip.class())
+		c.Fail(ip.class(), "a panic escaped from the implementation while it handled a received consensus message", h, ip, "an error return (message dropped)")
+		return
+	}
 	if err != nil {
 		c.Fail("harness:history", "history could not be executed", h, err.Error(), nil)
 		return
 	}
 	c.Eval()
+	for _, st := range o.Stripped {
+		c.Count("proposal-without-header-signature:" + st)
+		if st != vbft.VerifC31BadEncoding {
+			c.Fail("receive:proposal-without-sigdata-decoded", "a proposal whose block header or empty-block header carries no signature was not rejected by the wire decoder (DeserializeVbftMsg)",
+				h, st, vbft.VerifC31BadEncoding)
+		}
+	}
 	c.Count(fmt.Sprintf("N:%d", h.N))
 	c.Count(fmt.Sprintf("ops:%d", len(h.Ops)))
 	c.Count("label:" + strings.SplitN(h.Label, "/", 2)[0])
@@ -255,7 +272,12 @@ func gccCases(c *hx.Ctx, count int) {
 			}
 			terms = append(terms, coqCM(mOp{Claimed: sp.Committer, Proposer: sp.Proposer, ForEmpty: sp.ForEmpty, Ends: es}))
 		}
-		p, fe := vbft.VerifC31GetCommitConsensus(specs, cc, n)
+		var p uint32
+		var fe bool
+		if ip := guard("getCommitConsensus", func() { p, fe = vbft.VerifC31GetCommitConsensus(specs, cc, n) }); ip != nil {
+			c.Fail(ip.class(), "getCommitConsensus panicked", map[string]interface{}{"N": n, "C": cc, "msgs": specs}, ip, nil)
+			continue
+		}
 		c.Eval()
 		if p == maxU32 {
 			c.Count("gcc:none")
